@@ -187,6 +187,41 @@ def heap_writes(path, ignore_mut=True):
     return out
 
 
+def range_loops(path):
+    """`for _ in lo..hi` loops traversed by the path: list of dicts(header, frame, lo, hi, iter_loc, enter_index, nexts=[event idx])"""
+    out = []
+    for k, e in enumerate(path['events']):
+        if e['kind'] != 'loop-enter':
+            continue
+        src = dict(e.get('live', {}))
+        src.update(e['before'])
+        for local, v in sorted(src.items()):
+            if v[0] == 'agg' and v[1][0] == 'adt' and v[1][1] == 'core::ops::range::Range' and len(v[2]) == 2:
+                loc = (('L', e['frame'], local), ())
+                nx = [j for j, f in enumerate(path['events']) if j > k and f['kind'] == 'call' and f['name'] == 'next'
+                      and f.get('trait') == ITER and f['args'][0] == ('ref', loc)]
+                if nx:      # moved-from temporaries hold the same Range value but are never advanced
+                    out.append({'header': e['header'], 'frame': e['frame'], 'lo': v[2][0], 'hi': v[2][1], 'iter_loc': loc, 'enter': k, 'nexts': nx})
+    return out
+
+
+def iterator_loops(path):
+    """loops driven by Iterator::next on a local iterator: list of dicts(header, frame, iter (value before the loop), iter_loc, enter, nexts)"""
+    out = []
+    for k, e in enumerate(path['events']):
+        if e['kind'] != 'loop-enter':
+            continue
+        for j, f in enumerate(path['events']):
+            if j > k and f['kind'] == 'call' and f['name'] == 'next' and f.get('trait') == ITER and f['args'][0][0] == 'ref':
+                loc = f['args'][0][1]
+                src = dict(e.get('live', {}))
+                src.update(e['before'])
+                if loc[0][0] == 'L' and loc[0][1] == e['frame'] and not loc[1] and loc[0][2] in src:
+                    out.append({'header': e['header'], 'frame': e['frame'], 'iter': src[loc[0][2]], 'iter_loc': loc, 'enter': k, 'next': j})
+                    break
+    return out
+
+
 # ---------------------------------------------------------------- conditions
 def cond_facts(path):
     """list of (term, value term) branch conditions"""
